@@ -23,52 +23,75 @@ def empty_obs(ctx, be):
 
 
 def c06(ctx):
-    """1350 (+150 astronomical) binary-operator programs per back-end, then type-ascription variants of the accepted ones."""
+    """1350 (+150 astronomical) binary-operator programs per back-end, then type-ascription variants of the accepted
+    ones; the same over VERIF_SEED-generated derivation graphs (definitions rendered through the real macro)."""
+    import gen_decl
     out = []
     declared = qv.load_declared(os.path.join(ctx['spec'], 'catalogue.json'))
     decl_path = ctx['declared_for']('cat')
-    groups = [('cat', ['Amount'] + [t['T'] for t in declared['types'] if t['crate'] == 'quantities'], False)]
-    groups.append(('astro', ['Amount'] + [t['T'] for t in declared['types'] if t['crate'] == 'astro'], True))
+    groups = [('cat', declared, decl_path, ['Amount'] + [t['T'] for t in declared['types'] if t['crate'] == 'quantities'], False, ''),
+              ('astro', declared, decl_path, ['Amount'] + [t['T'] for t in declared['types'] if t['crate'] == 'astro'], True, '')]
+    # generated derivation graphs
+    ngraphs = 1 if ctx['tier'] == 'quick' else 6
+    for g in range(ngraphs):
+        reg = qv.normalise(gen_decl.gen_registry(ctx['seed'] * 53 + g, n_base=3, n_derived=3, prefix='Y'))
+        for t in reg['types']:
+            t['path'] = 'crate::defs'
+        gp = os.path.join(ctx['rundir'], 'c06_gen%d.json' % g)
+        json.dump(reg, open(gp, 'w', encoding='utf-8'), ensure_ascii=False)
+        dp = os.path.join(ctx['rundir'], 'decl_c06_gen%d.json' % g)
+        json.dump(qv.tlc_declared(reg), open(dp, 'w', encoding='utf-8'), ensure_ascii=False)
+        defs = ['pub mod defs {', '    use quantities::prelude::*;']
+        for t in reg['types']:
+            defs += qv.render_type(t)[0]
+        defs.append('}')
+        groups.append(('gen%d' % g, reg, dp, ['Amount'] + [t['T'] for t in reg['types']], False, '\n'.join(defs)))
     for be in ('f64', 'dec'):
-        for gname, types, astro in groups:
+        for gname, dreg, dpath, types, astro, prelude in groups:
             if astro and be == 'dec':
                 continue   # the astronomical crate exists for the f64 back-end only
             tdir = os.path.join(ctx['work'], 'target_probe')
-            lines, index, dt = cp.binop_programs(declared, types)
+            lines, index, dt = cp.binop_programs(dreg, types)
+            nhead = len(lines)
+            body = '\n'.join(lines) + '\n' + prelude + '\n'
             d1 = os.path.join(ctx['rundir'], 'probe_%s_%s_1' % (gname, be))
-            cp.write_crate(d1, ctx['repo'], be, '\n'.join(lines) + '\n', astro=astro)
+            cp.write_crate(d1, ctx['repo'], be, body, astro=astro)
             rc, diags, dep_failed, err = cp.cargo_check(d1, tdir)
             if dep_failed:
                 raise ctx['ToolError']('the repository does not build in configuration %s/%s: %s' % (gname, be, dep_failed[1][:300]))
             evs, stray = cp.verdicts(index, diags)
-            if stray:
+            stray = [d for d in stray if not d['lines'] or min(d['lines']) <= nhead]
+            if stray and not prelude:
                 raise ctx['ToolError']('diagnostics that cannot be attributed to a program: %s' % stray[:2])
+            if prelude and [d for d in diags if d['lines'] and min(d['lines']) > nhead]:
+                # the generated (well-formed, coherent) definitions themselves do not compile
+                evs = [dict(e, verdict='err') for e in evs]
             accepted = [e for e in evs if e['verdict'] == 'ok']
             # second crate: the accepted programs with every possible result-type ascription
             lines2 = lines[:2]
             index2 = {}
             cp.add_ascriptions(lines2, index2, dt, accepted, types)
             d2 = os.path.join(ctx['rundir'], 'probe_%s_%s_2' % (gname, be))
-            cp.write_crate(d2, ctx['repo'], be, '\n'.join(lines2) + '\n', astro=astro)
+            cp.write_crate(d2, ctx['repo'], be, '\n'.join(lines2) + '\n' + prelude + '\n', astro=astro)
             rc2, diags2, dep_failed2, err2 = cp.cargo_check(d2, tdir)
             evs2, stray2 = cp.verdicts(index2, diags2)
-            if stray2:
+            if stray2 and not prelude:
                 raise ctx['ToolError']('diagnostics that cannot be attributed to a program: %s' % stray2[:2])
             # thorough: a sample of rejected programs compiled on their own, to rule out masking between functions
             if ctx['tier'] == 'thorough':
                 rnd = random.Random(ctx['seed'])
                 rej = [e for e in evs if e['verdict'] == 'err']
-                for e in rnd.sample(rej, min(len(rej), 60)):
+                for e in rnd.sample(rej, min(len(rej), 40)):
                     d3 = os.path.join(ctx['rundir'], 'probe_single')
-                    cp.write_crate(d3, ctx['repo'], be, '\n'.join(lines[:2] + [lines[e['line'] - 1]]) + '\n', astro=astro)
+                    cp.write_crate(d3, ctx['repo'], be, '\n'.join(lines[:2] + [lines[e['line'] - 1]]) + '\n' + prelude + '\n', astro=astro)
                     rc3, diags3, _, _ = cp.cargo_check(d3, tdir)
                     alone = dict(e)
                     alone['verdict'] = 'err' if any(d['lines'] for d in diags3) or rc3 != 0 else 'ok'
                     alone['alone'] = True
                     evs2.append(alone)
             tp = os.path.join(ctx['rundir'], 'c06_%s_%s.ndjson' % (gname, be))
-            write_trace(tp, {'ev': 'Header', 'be': be, 'registry': 'cat', 'drv': 'c06', 'seed': ctx['seed'], 'tier': ctx['tier']}, evs + evs2, 'Compile')
-            out.append(('c06_%s_%s' % (gname, be), tp, empty_obs(ctx, be), decl_path))
+            write_trace(tp, {'ev': 'Header', 'be': be, 'registry': gname, 'drv': 'c06', 'seed': ctx['seed'], 'tier': ctx['tier']}, evs + evs2, 'Compile')
+            out.append(('c06_%s_%s' % (gname, be), tp, empty_obs(ctx, be), dpath))
             for d in (d1, d2):
                 shutil.rmtree(d, ignore_errors=True)
     return out
@@ -132,13 +155,13 @@ def run_gen_drivers(ctx, drivers, n_groups, tagprefix):
 
 
 def c11(ctx):
-    n = 2 if ctx['tier'] == 'quick' else 10
+    n = 1 if ctx['tier'] == 'quick' else 10
     drivers = ['units', 'lookup', 'c01', 'c02', 'c03', 'c04', 'c05', 'c08', 'c10'] + (['c13', 'c14', 'c15'] if ctx['tier'] == 'thorough' else [])
     return run_gen_drivers(ctx, drivers, n, 'c11')
 
 
 def c09gen(ctx):
-    n = 2 if ctx['tier'] == 'quick' else 10
+    n = 1 if ctx['tier'] == 'quick' else 10
     return run_gen_drivers(ctx, ['units', 'lookup'], n, 'c09g')
 
 
